@@ -59,7 +59,7 @@ func (s *Sim) hadSubscription(name string) bool {
 func (s *Sim) oracleOnHandOver(c *Client, rid string, f *Frame, r *CReq) {
 	name, _ := splitRID(c.expandCID(rid))
 	// C09.b: served only under a subscription
-	if held := c.Cache[rid]; held != nil && held.Kind != 'e' {
+	if held := c.Cache[rid]; held != nil && held.Kind != 'e' && !held.Deleted && !held.Ambiguous {
 		if res, v := s.W.lookup(c.expandCID(rid)); res != nil && v != nil && !v.Deleted {
 			// (a frame is composed some time before the client reads it: what counts
 			// is that the subscription existed at some moment since the request)
